@@ -638,15 +638,41 @@ func ruleBroadcastReachesEverySender(c *Ctx, rule string) {
 		if !c.Anchor(rule, name, fn != nil) {
 			continue
 		}
-		calls := callsIn(fn, func(ci ssa.CallInstruction) bool {
+		isSend := func(ci ssa.CallInstruction) bool {
 			m := calleeName(ci)
 			return strings.HasSuffix(m, "internal/dkg.sender).sendPacket") || strings.HasSuffix(m, "internal/dkg.sender).sendDirect")
-		})
-		for _, ci := range calls {
+		}
+		for _, ci := range callsIn(fn, isSend) {
 			n++
 			ok, why := executedEveryIteration(ci.(ssa.Instruction))
-			// and the loop runs over all the senders
 			c.Ok(rule, fnShort(fn)+" hands the packet to every sender", shortPos(c.P, ci), ok, why)
+		}
+		// the send may sit in a literal that the loop calls for every sender
+		for _, lit := range withClosures(fn)[1:] {
+			for _, ci := range callsIn(lit, isSend) {
+				n++
+				always := true
+				for _, r := range returnsOf(lit) {
+					if r.Block() != ci.Block() && reachableAvoiding(lit, r.Block(), func(e edge) bool { return e.from == ci.Block() }) {
+						always = false
+					}
+				}
+				ok, why := false, "the literal that sends is not called from a loop over the senders"
+				for _, call := range callsIn(fn, func(x ssa.CallInstruction) bool {
+					if f := calledFunc(x); f == lit {
+						return true
+					}
+					mc, isMC := canonValue(x.Common().Value).(*ssa.MakeClosure)
+					return isMC && mc.Fn == ssa.Value(lit)
+				}) {
+					ok, why = executedEveryIteration(call.(ssa.Instruction))
+					why = "literal called for every sender: " + why
+				}
+				if !always {
+					ok, why = false, "the literal called for each sender can return without sending"
+				}
+				c.Ok(rule, fnShort(fn)+" hands the packet to every sender", shortPos(c.P, ci), ok, why)
+			}
 		}
 	}
 	c.Floor(rule, "sends in the dispatcher's broadcast loops", n, 2)
